@@ -225,8 +225,10 @@ class Report:
         ev = {"property_id": self.prop, "tier": self.tier, "seed": self.seed, "level": level,
               "coverage": cov, "assumptions": assumptions or [], "wall_s": round(time.time() - self.t0, 2),
               "violations": len(self.violations) + (1 if (lines and not self.violations) else 0)}
-        os.makedirs(os.path.join(VERIF, "evidence"), exist_ok=True)
-        with open(os.path.join(VERIF, "evidence", f"{self.prop}.json"), "w") as f:
+        # (development runs against a seeded change write their evidence elsewhere: VERIF_EVIDENCE_DIR)
+        evdir = os.environ.get("VERIF_EVIDENCE_DIR") or os.path.join(VERIF, "evidence")
+        os.makedirs(evdir, exist_ok=True)
+        with open(os.path.join(evdir, f"{self.prop}.json"), "w") as f:
             json.dump(ev, f, indent=1, default=str)
         summary = (f"[{self.prop}] tier={self.tier} seed={self.seed} lean={'ok' if lean['ok'] else 'BROKEN'} "
                    f"obligations={lean['discharged']}/{lean['obligations']} "
